@@ -36,4 +36,9 @@ theorem files40 : GenV40.hook_decls = ["zz_verif_hooks.go:func VerifBytes", "zz_
 /-- which function mentions which package-level table or pool (the `error` sentinels aside): nothing else in the package —
     no `Error()` method, initialiser or untranslated helper — can read or write them, whatever aliasing it might use -/
 theorem uses40 : GenV40.pkg_var_uses = ["CVSS40.Score:highestSeverityVectors", "CVSS40.Score:highestSeverityVectorsEQ3EQ6", "ParseVector:order", "severityDistance:sevIdx"] := by decide
+/-- the only pre-sized buffer is `Vector`'s (its capacity is pinned by `C17.cap_eq_lenVec40`; a run-time capacity anywhere else
+    would be an unmodelled panic source), the only mention of package `unsafe` is `Vector`'s string conversion, and the hooks file is
+    byte for byte the committed one -/
+theorem buffers40 : GenV40.pkg_presized = ["CVSS40.Vector"] ∧ GenV40.pkg_unsafe_all = ["CVSS40.Vector:unsafe.Pointer"] ∧
+    GenV40.hook_sha = ["zz_verif_hooks.go:798c5105abf108ec"] := by decide
 end StateTie
